@@ -1,6 +1,7 @@
 """C02: aggregation. Correspondence: generated aggregate SELECTs (grouping keys by expression / output name /
 position, visible or hidden, explicit or implicit; every aggregate function; arithmetic over aggregates; WHERE,
 HAVING, ORDER BY, DISTINCT, LIMIT) on harness tables vs Model/Exec.v (exec_out)."""
+import random
 import datetime
 import decimal
 
@@ -107,7 +108,62 @@ class AggGen:
         return self.expr(t, d)
 
 
-def gen_case(rng, cols=None, rows=None, force_alias=False, alias_fmt='x{}'):
+_TW_COLS = [('a', T_INT), ('b', T_INT), ('c', T_DEC), ('d', T_DEC), ('e', T_STR), ('f', T_STR)]
+_TW_SWAP = {'a': 'b', 'b': 'a', 'c': 'd', 'd': 'c', 'e': 'f', 'f': 'e'}
+
+
+def _twin_text(text):
+    """Swap a<->b, c<->d, e<->f in column position (outside string literals)."""
+    import re
+    parts = text.split("'")
+    for i in range(0, len(parts), 2):
+        parts[i] = re.sub(r'\b([a-f])\b', lambda m: _TW_SWAP[m.group(1)], parts[i])
+    return "'".join(parts)
+
+
+def _twin_coq(coq):
+    import re
+    return re.sub(r'\(ECol (\d+)%nat\)', lambda m: '(ECol %d%%nat)' % (int(m.group(1)) ^ 1), coq)
+
+
+class TwinAggGen(AggGen):
+    """Round 8 (seed C02-m15: aggregate slots shared between nodes with the same repr): look-alike aggregates in one
+    statement - the same function over operands of the same shape that differ only in WHICH same-typed column they read,
+    often directly under a unary minus - next to each other in targets, HAVING and ORDER BY."""
+
+    def __init__(self, rng, g):
+        super().__init__(rng, g)
+        self.hist = []
+
+    def alloc(self, text, fun, argcoq, t, tag):
+        self.hist.append((text, fun, argcoq, t, tag))
+        return super().alloc(text, fun, argcoq, t, tag)
+
+    def leaf(self, t):
+        r = self.rng.random()
+        prior = [h for h in self.hist if h[3] == t and _twin_text(h[0]) != h[0]]
+        if prior and r < 0.45:
+            text, fun, argcoq, tt, tag = self.rng.choice(prior)
+            return super().alloc(_twin_text(text), fun, _twin_coq(argcoq), tt, 'twin:' + tag)
+        if t in (T_INT, T_DEC) and r < 0.7:
+            i = self.rng.choice([0, 1] if t == T_INT else [2, 3])
+            col = _TW_COLS[i][0]
+            zero = '(VInt 0)' if t == T_INT else '(VDec (mkdec false 0 0))'
+            fn, fun = self.rng.choice([('sum', f'(ASum {zero})'), ('min', 'AMin'), ('max', 'AMax'), ('first', 'AFirst'), ('last', 'ALast')])
+            return self.alloc(f'{fn}((-{col}))', fun, f'(EUnary UNeg (ECol {i}%nat))', t, f'{fn}[neg {t}]')
+        return super().leaf(t)
+
+
+def gen_twin_case(rng):
+    null_p = rng.choice([0.0, 0.15, 0.3])
+    nrows = rng.choice([1, 2, 3, 5, 8])
+    rows = [tuple(values.gen_value(rng, PY[t], null_p) for _, t in _TW_COLS) for _ in range(nrows)]
+    c = gen_case(rng, cols=list(_TW_COLS), rows=rows, agg_cls=TwinAggGen)
+    c['stream'] = 'twin'
+    return c
+
+
+def gen_case(rng, cols=None, rows=None, force_alias=False, alias_fmt='x{}', agg_cls=None):
     if cols is None:
         ncols = rng.randint(2, 5)
         cols = [(n, rng.choice(exprgen.ALL_TYPES)) for n in 'abcde'[:ncols]]
@@ -116,7 +172,7 @@ def gen_case(rng, cols=None, rows=None, force_alias=False, alias_fmt='x{}'):
         nrows = rng.choice([0, 1, 2, 3, 5, 8, 12])
         rows = [tuple(values.gen_value(rng, PY[t], null_p) for _, t in cols) for _ in range(nrows)]
     g = exprgen.Gen(rng, cols, max_depth=2)
-    ag = AggGen(rng, g)
+    ag = (agg_cls or AggGen)(rng, g)
     nkeys = rng.choice([0, 1, 1, 2, 2, 3])
     keys = []
     seen = set()
@@ -126,7 +182,7 @@ def gen_case(rng, cols=None, rows=None, force_alias=False, alias_fmt='x{}'):
             continue
         seen.add(k.text)
         keys.append(k)
-    nagg = rng.randint(0 if keys else 1, 3)
+    nagg = rng.randint(0 if keys else 1, 3) if agg_cls is None else rng.randint(2, 4)
     aggs = [ag.expr(rng.choice([T_INT, T_INT, T_DEC, T_STR, T_DATE, T_BOOL]), rng.choice([0, 0, 1, 2])) for _ in range(nagg)]
     # which keys are visible
     vis_keys = [k for k in keys if rng.random() < 0.7]
@@ -713,6 +769,9 @@ def run(tier, rng):
     cases += [gen_in_case(rng) for _ in range(400 if tier == 'quick' else 6000)]
     n_ka = 400 if tier == 'quick' else 6000
     cases += [gen_keyagg_case(rng) for _ in range(n_ka)]
+    tw_rng = random.Random(rng.random())
+    n_tw = 500 if tier == 'quick' else 6000
+    cases += [gen_twin_case(tw_rng) for _ in range(n_tw)]
     impl_out = core.pmap(run_impl, cases)
     model_out = model_many(cases)
     violations, seen = [], set()
